@@ -95,7 +95,14 @@ impl Frame {
 
         match result {
             Ok(0) => Restion::None,
-            Ok(_) => Self::from_stream_inner(stream, buf).into(),
+            Ok(read) => {
+                // A short read delivered only part of the header: read the rest (blocking)
+                if read < buf.len() && stream.read_exact(&mut buf[read..]).is_err() {
+                    return Restion::Err(WebsocketError::ReadError);
+                }
+
+                Self::from_stream_inner(stream, buf).into()
+            }
             Err(ref e) if e.kind() == std::io::ErrorKind::WouldBlock => Restion::None,
             Err(_) => Restion::Err(WebsocketError::ReadError),
         }
